@@ -1,12 +1,8 @@
 package main
 
 import (
-	"flag"
 	"fmt"
 	"os"
-	"sort"
-	"strings"
-	"time"
 )
 
 func main() {
@@ -21,91 +17,6 @@ func main() {
 		fmt.Fprintln(os.Stderr, "unknown command")
 		os.Exit(2)
 	}
-}
-
-func cmdCheck(args []string) int {
-	fs := flag.NewFlagSet("check", flag.ExitOnError)
-	prop := fs.String("property", "", "property id")
-	tier := fs.String("tier", "quick", "quick|thorough")
-	repo := fs.String("repo", "/repo", "repository")
-	only := fs.String("fn", "", "only units whose name contains this")
-	dump := fs.String("dump", "", "directory to dump SMT queries of failing obligations")
-	verbose := fs.Bool("v", false, "verbose")
-	fs.Parse(args)
-	t0 := time.Now()
-	ld, err := Load(*repo, []string{"./..."})
-	if err != nil {
-		fmt.Fprintln(os.Stderr, "load error:", err)
-		return 2
-	}
-	fmt.Fprintf(os.Stderr, "loaded in %.1fs, %d contract blocks\n", time.Since(t0).Seconds(), len(ld.Blocks))
-	eng := newEngine(ld)
-	eng.tier = *tier
-	eng.verbose = *verbose
-	var units []*Unit
-	for _, b := range ld.Blocks {
-		if *prop != "" && !contains(b.Props, *prop) {
-			continue
-		}
-		if *only != "" && !strings.Contains(b.QualName(), *only) {
-			continue
-		}
-		if b.Flags["trusted"] || b.Flags["assume-contract"] {
-			continue
-		}
-		u := eng.verifyBlock(b)
-		units = append(units, u)
-	}
-	timeout := 20
-	if *tier == "thorough" {
-		timeout = 120
-	}
-	sv, err := newSolver(timeout)
-	if err != nil {
-		fmt.Fprintln(os.Stderr, err)
-		return 2
-	}
-	defer sv.cleanup()
-	sv.dischargeAll(units, 16)
-	bad := 0
-	total := 0
-	for _, u := range units {
-		if u.Err != "" {
-			fmt.Printf("ENGINE %s: %s\n", u.Block.QualName(), u.Err)
-			bad++
-		}
-		obls := u.Ctx.obls
-		sort.SliceStable(obls, func(i, j int) bool { return obls[i].Name < obls[j].Name })
-		for _, o := range obls {
-			total++
-			okStatus := o.Status == "PROVED" || o.Status == "COVERED"
-			if !okStatus {
-				bad++
-			}
-			if *verbose || !okStatus {
-				fmt.Printf("%-9s %-70s %-10s %.2fs  %s:%d  %s\n", o.Status, o.Name, o.Backend, o.SolverS, shortPos(o.Pos.Filename), o.Pos.Line, o.Text)
-				if o.Status == "REFUTED" {
-					var ks []string
-					for k := range o.Model {
-						ks = append(ks, k)
-					}
-					sort.Strings(ks)
-					for _, k := range ks {
-						fmt.Printf("            %s = %s\n", k, o.Model[k])
-					}
-				}
-				if !okStatus && *dump != "" {
-					os.MkdirAll(*dump, 0o755)
-					os.WriteFile(*dump+"/"+smtSym(o.Name)+".smt2", []byte(u.Ctx.query(o, true)), 0o644)
-				}
-			}
-		}
-	}
-	fmt.Printf("%d obligations, %d not discharged, %.1fs\n", total, bad, time.Since(t0).Seconds())
-	if bad > 0 {
-		return 1
-	}
-	return 0
 }
 
 func contains(xs []string, x string) bool {
